@@ -7,7 +7,9 @@ specification written from the property statement.  Plus dispatch / argument-rol
 Verdicts: a formula comparison is decisive (HOLDS / VIOLATED, the latter with the name of the wrong variant the
 code equals when it is one of the known ones); whatever prevents extraction or comparison is UNDECIDED.  The rules
 on the Python call site (argument roles, point order, work-array storage, interpolation before evaluation, loop
-test) are three-valued: VIOLATED only for a recognised wrong form.
+test) are three-valued: VIOLATED only for a recognised wrong form.  They are relational: both sides of an agreement
+(constructor and call site, interpolation destination and spline handed to the kernel, writer and reader of the
+per-plane potential splines) are extracted from the code and compared with each other, not with today's names.
 """
 from __future__ import annotations
 
@@ -19,7 +21,7 @@ import sympy as sp
 from sympy import Symbol, Rational, Integer
 from sympy.core.function import AppliedUndef
 
-from ..core import src, guards_of
+from ..core import src, guards_of, parent
 from .. import units as U
 from ..symx import (SymExec, Arr, ITE, Wrap, PI, make_args, Undecided, canon_rel, consistent, collect_ites,
                     alg_equal)
@@ -188,6 +190,16 @@ def _resolve(e, A, val):
     return e.func(*[_resolve(a, A, val) for a in e.args])
 
 
+def shift_once(x):
+    """`if x < 0: x += 2 pi elif x >= 2 pi: x -= 2 pi`: equals x mod 2 pi only for x in [-2 pi, 4 pi)"""
+    return ITE(sp.Lt(x, 0), x + 2 * PI, ITE(sp.Ge(x, 2 * PI), x - 2 * PI, x))
+
+
+ONE_SHIFT = ("the angle is brought back towards [0, 2 pi) by ONE conditional shift of a period instead of being reduced modulo "
+             "2 pi: as soon as the angular displacement of a characteristic exceeds one turn in a step (|d_r phi| dt/(r B0) > "
+             "2 pi) theta stays outside [0, 2 pi) and the splines of phi and f are evaluated outside their domain")
+
+
 def layered_equal(a, b, max_atoms=14):
     """equality of two extracted expressions with nested conditionals -> (bool, witness)"""
     A = _Atoms()
@@ -246,7 +258,7 @@ def unify_shapes(e, args):
 _SHAPE_SYM = re.compile(r"^n([01])_(\w+)$")
 
 
-def compare(chk, rule, node, what, code, spec, func, args=None, wrong=(), stale=()):
+def compare(chk, rule, node, what, code, spec, func, args=None, wrong=(), stale=(), one_shift=None):
     """decisive verdict of the formula engine; anything that prevents the comparison is UNDECIDED.
     `wrong`: (diagnosis, formula) pairs of known wrong variants of the specification: when the code differs from the
     specification and equals one of them the diagnosis names the defect"""
@@ -266,7 +278,20 @@ def compare(chk, rule, node, what, code, spec, func, args=None, wrong=(), stale=
             why = (f"the formula reads cells of the work array(s) {left_over} that this call has not written on every path: "
                    "the arrays persist between calls, so values left over from the previous step enter the result - " + why)
             wrong = ()
+        wrong = list(wrong)
+        if one_shift is None:
+            one_shift = rule in ("F1-predictor", "F1-corrector", "F1-fixed-point-map")
+        if one_shift and isinstance(spec, sp.Basic) and spec.has(Wrap) and isinstance(code, sp.Basic) \
+                and not (code.args[0] if isinstance(code, Wrap) else code).has(Wrap):
+            def unwrap(e):
+                return e.replace(lambda x: isinstance(x, Wrap), lambda x: shift_once(x.args[0]))
+            first = [(ONE_SHIFT, unwrap(spec))]
+            if isinstance(spec, Wrap) and isinstance(code, Wrap):   # the rule reduces the value it reads back once more
+                first.append((ONE_SHIFT, Wrap(unwrap(spec))))
+            wrong = first + wrong
         for label, variant in wrong:
+            if variant is None:
+                continue
             try:
                 same, _w = layered_equal(code, variant)
             except Exception:
@@ -436,6 +461,19 @@ def node_sweeps(loops, body):
     return out
 
 
+def _split_sweep(lp):
+    """another range loop with different bounds stands next to `lp` in the same block"""
+    p_ = parent(lp)
+    if p_ is None:
+        return False
+    for field in ("body", "orelse"):
+        lst = getattr(p_, field, None)
+        if isinstance(lst, list) and any(x is lp for x in lst):
+            return any(isinstance(x, ast.For) and x is not lp and isinstance(x.iter, ast.Call) and src(x.iter.func) == "range"
+                       and src(x.iter) != src(lp.iter) for x in lst)
+    return False
+
+
 def sweep_ranges(chk, fn, regions, args, modname, qname):
     """every loop over the nodes visits all of them: range(number of theta points) / range(number of r points)"""
     nq = Symbol("n0_qPts", integer=True, positive=True)
@@ -481,6 +519,11 @@ def sweep_ranges(chk, fn, regions, args, modname, qname):
             dlo, dhi = sp.simplify(lo), sp.simplify(hi - want)
             if dlo == 0 and dhi == 0:
                 chk.ob("F1-sweep-range", lp, what, True, f"the sweep visits every {axis} node", file=modname, func=qname)
+            elif ((dlo.is_number and dlo != 0) or (dhi.is_number and dhi != 0)) and _split_sweep(lp):
+                chk.ob("F1-sweep-range", lp, what, None,
+                       f"the sweep over {axis} runs from {lo} to {hi} and is followed or preceded by another loop with other "
+                       "bounds in the same block (a sweep split in parts?): whether together they visit every node is not decided",
+                       file=modname, func=qname)
             elif (dlo.is_number and dlo != 0) or (dhi.is_number and dhi != 0):
                 chk.ob("F1-sweep-range", lp, what, False,
                        f"the sweep over {axis} runs from {lo} to {hi} instead of over all {want} nodes: the nodes left out keep "
@@ -494,12 +537,80 @@ def sweep_ranges(chk, fn, regions, args, modname, qname):
                        file=modname, func=qname)
 
 
-def convergence_test(chk, w, ex, args, modname, qname):
+def _own_breaks(loop):
+    """the `break` statements that leave `loop` (not those of a loop nested in it)"""
+    out = []
+
+    def rec(stmts):
+        for st in stmts:
+            if isinstance(st, ast.Break):
+                out.append(st)
+            elif isinstance(st, (ast.For, ast.While)):
+                rec(st.orelse)
+            elif isinstance(st, ast.If):
+                rec(st.body)
+                rec(st.orelse)
+            elif isinstance(st, (ast.With, ast.Try)):
+                rec(getattr(st, "body", []))
+    rec(loop.body)
+    return out
+
+
+def _const_true(e):
+    return isinstance(e, ast.Constant) and e.value in (True, 1)
+
+
+def iteration_loop(fn):
+    """the fixed-point iteration of the implicit kernel in while form.
+    -> (loop statement of fn.body, equivalent `while` node, do_while, bounded_by_range) or a string saying why the loop
+    was not brought to that form, or None when the function has no iteration at all.
+      while T: body                                   as written
+      while True: [if c: break]; body; [if c: break]  -> while not c: body   (exit test last: the body runs at least once)
+      for _ in range(N): ... same two forms ...       -> the same, with the number of passes bounded by N"""
+    tops = [n for n in fn.body if isinstance(n, ast.While) or (isinstance(n, ast.For) and _own_breaks(n))]
+    if not tops:
+        anyloop = [n for n in ast.walk(fn) if isinstance(n, ast.While) or (isinstance(n, ast.For) and _own_breaks(n))]
+        return "the iteration is not a statement of the function body" if anyloop else None
+    if len(tops) != 1:
+        return f"{len(tops)} candidate loops for the fixed-point iteration"
+    lp = tops[0]
+    brk = _own_breaks(lp)
+    if isinstance(lp, ast.While) and not _const_true(lp.test):
+        return lp, lp, False, False          # a `break` next to a real test is an additional exit (a bound): see iteration_bound
+    if lp.orelse:
+        return "the loop has an else clause"
+    if len(brk) != 1:
+        return f"{len(brk)} break statements leave the loop"
+
+    def exit_if(st):
+        return isinstance(st, ast.If) and not st.orelse and len(st.body) == 1 and st.body[0] is brk[0]
+    if exit_if(lp.body[-1]):
+        rest, do_while, ex_ = lp.body[:-1], True, lp.body[-1]
+    elif exit_if(lp.body[0]):
+        rest, do_while, ex_ = lp.body[1:], False, lp.body[0]
+    else:
+        return "the exit test is not the first or the last statement of the loop body"
+    if isinstance(lp, ast.For):
+        if not (isinstance(lp.iter, ast.Call) and src(lp.iter.func) == "range" and isinstance(lp.target, ast.Name)):
+            return "the bounding loop is not a range loop"
+        if any(isinstance(n, ast.Name) and n.id == lp.target.id for st in rest for n in ast.walk(st)):
+            return "the pass counter is used inside the pass"
+    w = ast.While(test=ast.UnaryOp(op=ast.Not(), operand=ex_.test), body=rest, orelse=[])
+    ast.copy_location(w, lp)
+    ast.copy_location(w.test, ex_.test)
+    ast.fix_missing_locations(w)
+    w._parent = parent(lp)
+    return lp, w, do_while, isinstance(lp, ast.For)
+
+
+def convergence_test(chk, w, ex, args, modname, qname, do_while=False, counters=()):
     """the while loop runs exactly while the measure exceeds the tolerance and is entered"""
     nrm, tol = Symbol("norm", real=True), Symbol("tol", positive=True)
     tex = SymExec(ast.FunctionDef(name="_t", args=ast.arguments(posonlyargs=[], args=[], kwonlyargs=[], kw_defaults=[],
                                                                    defaults=[]), body=[], decorator_list=[], lineno=w.lineno),
-                  {"norm": nrm, "tol": tol})
+                  dict({"norm": nrm, "tol": tol}, **{c_: Symbol(c_, integer=True) for c_ in counters},
+                       **{k_: v_ for k_, v_ in ex.env.items() if isinstance(v_, sp.Basic) and k_ not in ("norm", "tol")
+                          and k_ not in counters}))
     want = canon_rel(sp.Gt(nrm, tol))
     verdict, why = None, None
     try:
@@ -513,6 +624,16 @@ def convergence_test(chk, w, ex, args, modname, qname):
                 verdict, why = False, "the loop test is constant true: the iteration does not stop at convergence"
             elif c is sp.false:
                 verdict, why = False, "the loop test is constant false: the fixed-point iteration is never executed"
+            elif isinstance(c, sp.And):
+                # `norm > tol and it < maxit`: the measure test, and conjuncts that only bound the number of passes
+                main = [a_ for a_ in c.args if not isinstance(a_, (sp.And, sp.Or)) and canon_rel(a_) == want]
+                rest = [a_ for a_ in c.args if a_ not in main]
+                if len(main) == 1 and rest and all(
+                        a_.free_symbols and {str(x) for x in a_.free_symbols} & set(counters)
+                        and not ({str(x) for x in a_.free_symbols} & {"norm", "tol"}) for a_ in rest):
+                    verdict = True
+                else:
+                    why = "compound loop test: whether the loop runs until the measure is below tol is not decided"
             else:
                 why = "compound loop test: whether the loop runs until the measure is below tol is not decided"
         else:
@@ -534,6 +655,8 @@ def convergence_test(chk, w, ex, args, modname, qname):
             entered = True
         elif d.is_positive is False or d == 0:
             entered = False
+    if do_while:
+        entered = True                # the exit test comes after the pass
     if verdict is True and entered is True:
         chk.ob("F1-convergence-test", w, src(w.test), True,
                "iteration continues exactly while the measure exceeds tol and is entered at least once", file=modname, func=qname)
@@ -551,19 +674,18 @@ def convergence_test(chk, w, ex, args, modname, qname):
 def check_implicit(chk, mod, modname=U.ADVK, qname=IMPL):
     fn = mod.func(qname)
     chk.functions.add(f"{modname}:{qname}")
-    whiles = [n for n in fn.body if isinstance(n, ast.While)]
-    if len(whiles) != 1:
-        nested = [n for n in ast.walk(fn) if isinstance(n, ast.While)]
-        if not nested:
-            chk.ob("F1-fixed-point-map", fn, qname, False,
-                   "the implicit kernel contains no iteration at all: the foot is not the converged solution of the "
-                   "implicit trapezoidal rule", file=modname, func=qname)
-            return
-        chk.ob("F1-extraction", fn, qname, None, "expected one top-level while loop (the fixed-point iteration)",
+    found = iteration_loop(fn)
+    if found is None:
+        chk.ob("F1-fixed-point-map", fn, qname, False,
+               "the implicit kernel contains no iteration at all (no while loop, no loop left by a break): the foot is not "
+               "the converged solution of the implicit trapezoidal rule", file=modname, func=qname)
+        return
+    if isinstance(found, str):
+        chk.ob("F1-extraction", fn, qname, None, f"expected one top-level loop (the fixed-point iteration): {found}",
                file=modname, func=qname)
         return
-    w = whiles[0]
-    k = fn.body.index(w)
+    loop_stmt, w, do_while, _ranged = found
+    k = fn.body.index(loop_stmt)
     # ---- phase 1: predictor (statements before the while)
     pre = ast.FunctionDef(name="_pre", args=fn.args, body=fn.body[:k], decorator_list=[], lineno=fn.lineno)
     ex, args = setup(pre)
@@ -581,7 +703,7 @@ def check_implicit(chk, mod, modname=U.ADVK, qname=IMPL):
             Wrap(got1["endPts_k1_q"]), T0["th1"], qname, args, wrong_traces(S, "th1"))
     compare(chk, "F1-predictor", fn, "r* = r_j + (d_theta phi/r_j) dt/B0 (initial iterate)",
             got1["endPts_k1_r"], T0["r1"], qname, args, wrong_traces(S, "r1"))
-    convergence_test(chk, w, ex, args, modname, qname)
+    convergence_test(chk, w, ex, args, modname, qname, do_while=do_while, counters=_pass_counters(w))
     # ---- phase 2: one iteration of the map, from a generic iterate (Q, R)
     body = w.body
     loops = [n for n in body if isinstance(n, ast.For)]
@@ -703,21 +825,87 @@ def check_implicit(chk, mod, modname=U.ADVK, qname=IMPL):
 # call sites of the kernels in PoloidalAdvection.step
 # ---------------------------------------------------------------------------------------------------------
 
-WORK_ROLES = {"self._drPhi_0": "drPhi_0", "self._dqPhi_0": "dthetaPhi_0", "self._drPhi_k": "drPhi_k",
-              "self._dqPhi_k": "dthetaPhi_k", "self._endPts_k1_q": "endPts_k1_q", "self._endPts_k1_r": "endPts_k1_r",
-              "self._endPts_k2_q": "endPts_k2_q", "self._endPts_k2_r": "endPts_k2_r"}
-
-# roles of the actuals, written with the local aliases of step() resolved to what they denote
-ROLES = dict(WORK_ROLES)
-ROLES.update({
-    "self._points[1]": "rPts", "self._points[0]": "qPts",
+# roles of the actuals that are parameters of step() itself (its public signature)
+STEP_ROLES = {
     "phi.basis[0].knots": "kts1Phi", "phi.basis[1].knots": "kts2Phi", "phi.coeffs": "coeffsPhi",
     "phi.basis[0].degree": "deg1Phi", "phi.basis[1].degree": "deg2Phi",
-    "self._spline.basis[0].knots": "kts1Pol", "self._spline.basis[1].knots": "kts2Pol", "self._spline.coeffs": "coeffsPol",
-    "self._spline.basis[0].degree": "deg1Pol", "self._spline.basis[1].degree": "deg2Pol",
-    "phi.basis[0].cubic_uniform": "cubic_uniform_splines", "self._nulEdge": "nulBound", "self._TOL": "tol",
+    "phi.basis[0].cubic_uniform": "cubic_uniform_splines",
     "f": "f", "float(dt)": "dt", "dt": "dt", "v": "v",
-})
+}
+# an attribute that keeps a constructor argument has the role of that argument
+CTOR_PARAM_ROLES = {"tol": "tol", "nulEdge": "nulBound"}
+AXIS_ROLES = {"r": "rPts", "theta": "qPts"}
+
+
+def pol_roles(recv):
+    """roles of the parts of the spline of the distribution, `recv` being the spline object the call site reads"""
+    return {f"{recv}.basis[0].knots": "kts1Pol", f"{recv}.basis[1].knots": "kts2Pol", f"{recv}.coeffs": "coeffsPol",
+            f"{recv}.basis[0].degree": "deg1Pol", f"{recv}.basis[1].degree": "deg2Pol"}
+
+
+def ctor_provenance(cls):
+    """attributes that keep an argument of the constructor unchanged: `self.X = <parameter>` as the only store of
+    self.X in the class -> {"self.X": parameter name}"""
+    init = next((st for st in cls.body if isinstance(st, ast.FunctionDef) and st.name == "__init__"), None)
+    if init is None:
+        return {}
+    params = {a.arg for a in init.args.args[1:]} | {a.arg for a in init.args.kwonlyargs}
+    rebound = {n.id for n in ast.walk(init) if isinstance(n, ast.Name) and isinstance(n.ctx, ast.Store)}
+    stores = {}
+    for n in ast.walk(cls):
+        if isinstance(n, ast.Attribute) and isinstance(n.ctx, ast.Store) and isinstance(n.value, ast.Name) and n.value.id == "self":
+            stores[n.attr] = stores.get(n.attr, 0) + 1
+    out = {}
+    for st in init.body:
+        if isinstance(st, ast.Assign) and len(st.targets) == 1 and isinstance(st.targets[0], ast.Attribute) \
+                and src(st.targets[0].value) == "self" and isinstance(st.value, ast.Name) and st.value.id in params \
+                and st.value.id not in rebound and stores.get(st.targets[0].attr) == 1:
+            out["self." + st.targets[0].attr] = st.value.id
+    return out
+
+
+def work_roles_at_call(chk, c0, kname, b, work_exprs, known, where):
+    """the eight work parameters of a kernel receive eight different work arrays.  The arrays are scratch storage of one
+    shape that only step() hands out and that the kernels write before they read (rules F1-*, which report a cell read
+    before it is written): WHICH array plays which part is a convention of the call site and not a requirement, what
+    the kernels need is that no two parts share an array (rule E2-work-array-storage decides whether two different
+    expressions denote different storage) and that no other argument is used as scratch."""
+    got = {}
+    for f, a in b.items():
+        if f in WORK:
+            got.setdefault(src(a), []).append(f)
+    for f, a in b.items():
+        s_ = src(a)
+        what = f"{kname}: {f} <- {s_}"
+        node = a if hasattr(a, "lineno") else c0
+        if f in WORK and s_ not in known:
+            shared = [g for g in got[s_] if g != f]
+            if not shared:
+                chk.ob("E2-argument-role", node, what, True,
+                       f"work parameter `{f}` receives `{s_}`, which no other parameter of the call receives", **where)
+                continue
+            g = shared[0]
+            pf, pg = (x.replace("_k1_", "_k?_").replace("_k2_", "_k?_") for x in (f, g))
+            if "endPts" in f and "endPts" in g and {f[:9], g[:9]} == {"endPts_k1", "endPts_k2"} and kname.endswith("_expl"):
+                chk.ob("E2-argument-role", node, what, None,
+                       f"parameters `{f}` and `{g}` of the explicit kernel receive the same array `{s_}`: whether the kernel "
+                       "still needs the first-stage end point when it writes the second-stage one is not decided by this rule",
+                       **where)
+                continue
+            if pf == pg and "endPts" in f:
+                why = (f"parameters `{f}` and `{g}` receive the same array `{s_}`: the implicit kernel measures convergence as "
+                       "|endPts_k2 - endPts_k1| (new iterate minus old iterate); on shared storage that is always 0, the while "
+                       "loop stops after its first pass and the foot is one unconverged iterate")
+            else:
+                why = (f"parameters `{f}` and `{g}` receive the same array `{s_}`: the kernel keeps different quantities in them "
+                       "during one sweep (drift at the node / at the second point, first- and second-stage end points), one "
+                       "overwrites the other")
+            chk.ob("E2-argument-role", node, what, False, why, **where)
+        elif f not in WORK and s_ in work_exprs:
+            chk.ob("E2-argument-role", node, what, False,
+                   f"`{s_}` is handed to the same call as a work array (uninitialised scratch storage that the kernel "
+                   f"overwrites) and as `{f}`", **where)
+        # a work parameter that receives an argument of another known role is reported by the role table (check_roles)
 
 
 def _pure_path(n):
@@ -771,11 +959,118 @@ class _Subst(ast.NodeTransformer):
         return n
 
 
-def resolved_call(call, aliases):
-    """the call with local aliases replaced by what they denote and `*name` of a local tuple spliced in"""
+def _kw_value_ok(v, stores):
+    """value of a keyword table: an expression whose names are never rebound in the function (it denotes at the call
+    what it denoted where the table was built) and that contains no call other than a conversion of such a value"""
+    for n in ast.walk(v):
+        if isinstance(n, ast.Name) and stores.get(n.id, 0) > 1:
+            return False
+        if isinstance(n, ast.Call) and not (src(n.func) in ("float", "int", "bool") and len(n.args) == 1 and not n.keywords):
+            return False
+        if isinstance(n, (ast.Lambda, ast.ListComp, ast.DictComp, ast.SetComp, ast.GeneratorExp, ast.Starred, ast.NamedExpr)):
+            return False
+    return True
+
+
+def _kw_items(v, tables):
+    """the (key, value node) pairs of a keyword table written as `dict(k=v, ...)`, `{"k": v, ...}`, a local name of
+    `tables`, or a merge of those (`dict(base, k=v)`, `dict(**base, k=v)`, `{**base, "k": v}`: later entries replace
+    earlier ones); None when the expression is not such a table"""
+    if isinstance(v, ast.Name):
+        return list(tables[v.id]) if v.id in tables else None
+    out = []
+
+    def put(k_, val):
+        out[:] = [(a, b) for a, b in out if a != k_] + [(k_, val)]
+
+    def merge(e):
+        it = _kw_items(e, tables)
+        if it is None:
+            return False
+        for a, b in it:
+            put(a, b)
+        return True
+    if isinstance(v, ast.Dict):
+        for k_, val in zip(v.keys, v.values):
+            if k_ is None:
+                if not merge(val):
+                    return None
+            elif isinstance(k_, ast.Constant) and isinstance(k_.value, str):
+                put(k_.value, val)
+            else:
+                return None
+        return out
+    if isinstance(v, ast.Call) and isinstance(v.func, ast.Name) and v.func.id == "dict" and len(v.args) <= 1:
+        if v.args and not merge(v.args[0]):
+            return None
+        seen = set()
+        for k_ in v.keywords:
+            if k_.arg is None:
+                if not merge(k_.value):
+                    return None
+            else:
+                if k_.arg in seen:
+                    return None
+                seen.add(k_.arg)
+                put(k_.arg, k_.value)
+        return out
+    return None
+
+
+def local_kwtables(fn):
+    """locals of `fn` that are keyword tables of a call: bound exactly once, unconditionally at the top level of the
+    function, to `dict(k=v, ...)` / `{"k": v, ...}` (or a merge of earlier tables), never modified (every other
+    occurrence of the name is `**name` in a call or the base of a later table) and whose values denote the same
+    objects wherever they are written: name -> [(key, value node)]"""
+    stores = {}
+    for n in ast.walk(fn):
+        if isinstance(n, ast.Name) and isinstance(n.ctx, ast.Store):
+            stores[n.id] = stores.get(n.id, 0) + 1
+    params = {a.arg for a in fn.args.args}
+    out = {}
+    for st in fn.body:
+        if not (isinstance(st, ast.Assign) and len(st.targets) == 1 and isinstance(st.targets[0], ast.Name)):
+            continue
+        nm = st.targets[0].id
+        if nm in params or stores.get(nm) != 1:
+            continue
+        if not (isinstance(st.value, ast.Dict) or (isinstance(st.value, ast.Call) and src(st.value.func) == "dict")):
+            continue
+        items = _kw_items(st.value, out)
+        if items is None or not all(_kw_value_ok(val, stores) for _k, val in items):
+            continue
+        # the table is only ever unpacked: any other use (subscript store, method call, argument) may modify it
+        uses_ok = True
+        for n in ast.walk(fn):
+            if isinstance(n, ast.Name) and n.id == nm and isinstance(n.ctx, ast.Load):
+                p_ = parent(n)
+                if isinstance(p_, ast.keyword) and p_.arg is None and p_.value is n:
+                    continue
+                if isinstance(p_, ast.Dict) and any(k_ is None and val is n for k_, val in zip(p_.keys, p_.values)):
+                    continue
+                if isinstance(p_, ast.Call) and src(p_.func) == "dict" and p_.args and p_.args[0] is n:
+                    continue
+                uses_ok = False
+        if uses_ok:
+            out[nm] = items
+    return out
+
+
+def resolved_call(call, aliases, kwtables=None):
+    """the call with local aliases replaced by what they denote, `*name` of a local tuple and `**name` of a local
+    keyword table spliced in"""
     import copy
     c = copy.deepcopy(call)
     sub = _Subst(aliases)
+    if kwtables is not None:
+        kws = []
+        for k in c.keywords:
+            items = _kw_items(k.value, kwtables) if k.arg is None else None
+            if items is None:
+                kws.append(k)
+            else:
+                kws += [ast.keyword(arg=a, value=copy.deepcopy(b)) for a, b in items]
+        c.keywords = kws
     args = []
     for a in c.args:
         if isinstance(a, ast.Starred):
@@ -795,37 +1090,59 @@ def resolved_call(call, aliases):
     return c
 
 
-def point_order(chk, init):
-    """self._points holds (theta, r): evaluated on the list of axis names"""
-    pts = [n for n in ast.walk(init) if isinstance(n, ast.Assign) and any(src(t) == "self._points" for t in n.targets)]
-    what = "self._points = (theta, r) = eta_vals[1::-1]"
-    if len(pts) != 1:
-        chk.ob("E2-point-order", init, what, None, "no single assignment of self._points in the constructor: not decided",
-               file=U.ADV, func="PoloidalAdvection.__init__")
-        return
-    v = pts[0].value
-    simple = all(isinstance(n, (ast.Name, ast.Subscript, ast.Slice, ast.Constant, ast.UnaryOp, ast.USub, ast.Tuple, ast.List,
-                                ast.Load, ast.expr_context)) for n in ast.walk(v)) and \
-        all(n.id == "eta_vals" for n in ast.walk(v) if isinstance(n, ast.Name))
-    got = None
-    if simple:
-        try:
-            got = eval(compile(ast.Expression(body=v), "<points>", "eval"), {"__builtins__": {}},
-                       {"eta_vals": ["r", "theta", "z", "v"]})
-            got = list(got)
-        except Exception:
-            got = None
-    if got is None:
-        chk.ob("E2-point-order", pts[0], what, None, f"`{src(v)}` is not a selection from eta_vals: not decided",
-               file=U.ADV, func="PoloidalAdvection.__init__")
-    elif got[:2] == ["theta", "r"]:
-        chk.ob("E2-point-order", pts[0], what, True, "points are (theta, r): index 0 = theta, index 1 = r",
-               file=U.ADV, func="PoloidalAdvection.__init__")
-    else:
-        chk.ob("E2-point-order", pts[0], what, False,
-               f"`{src(v)}` is {tuple(got)}: step() hands _points[0] to the kernels as the theta points and _points[1] as "
-               "the r points, so the two grid axes are exchanged (or wrong) in the whole advection",
-               file=U.ADV, func="PoloidalAdvection.__init__")
+AXES = ["r", "theta", "z", "v"]
+
+
+def grid_axes(init):
+    """attributes that the constructor binds to a selection of the list of grid axes `eta_vals` = (r, theta, z, v):
+    {"self.X": ("r" | "theta" | ... | [axis, ...], assignment node)}.  The selection (subscripts and slices with constant
+    bounds, tuples of those) is evaluated on the list of the axis NAMES."""
+    out = {}
+    stores = {}
+    for n in ast.walk(init):
+        if isinstance(n, ast.Attribute) and isinstance(n.ctx, ast.Store) and src(n.value) == "self":
+            stores[n.attr] = stores.get(n.attr, 0) + 1
+    for st in ast.walk(init):
+        if not (isinstance(st, ast.Assign) and len(st.targets) == 1):
+            continue
+        tg, vals = [st.targets[0]], [st.value]
+        if isinstance(st.targets[0], (ast.Tuple, ast.List)) and isinstance(st.value, (ast.Tuple, ast.List)) \
+                and len(st.targets[0].elts) == len(st.value.elts):
+            tg, vals = list(st.targets[0].elts), list(st.value.elts)
+        for t, v in zip(tg, vals):
+            if not (isinstance(t, ast.Attribute) and src(t.value) == "self" and stores.get(t.attr) == 1):
+                continue
+            simple = all(isinstance(n, (ast.Name, ast.Subscript, ast.Slice, ast.Constant, ast.UnaryOp, ast.USub, ast.Tuple,
+                                        ast.List, ast.Load, ast.expr_context)) for n in ast.walk(v)) and \
+                any(isinstance(n, ast.Name) for n in ast.walk(v)) and \
+                all(n.id == "eta_vals" for n in ast.walk(v) if isinstance(n, ast.Name))
+            if not simple:
+                continue
+            try:
+                got = eval(compile(ast.Expression(body=v), "<points>", "eval"), {"__builtins__": {}}, {"eta_vals": list(AXES)})
+            except Exception:
+                continue
+            if isinstance(got, str):
+                out["self." + t.attr] = (got, st)
+            elif isinstance(got, (list, tuple)) and all(isinstance(x, str) for x in got):
+                out["self." + t.attr] = (list(got), st)
+    return out
+
+
+def axis_of(e, axes):
+    """the grid axis an actual denotes: `self.X` bound to one axis, or `self.X[k]` with X bound to a sequence of axes
+    -> (axis, assignment node) ; None when it is not decided"""
+    s_ = src(e)
+    if s_ in axes and isinstance(axes[s_][0], str):
+        return axes[s_]
+    if isinstance(e, ast.Subscript) and src(e.value) in axes and isinstance(axes[src(e.value)][0], list):
+        k = e.slice
+        if isinstance(k, ast.UnaryOp) and isinstance(k.op, ast.USub) and isinstance(k.operand, ast.Constant):
+            k = ast.Constant(value=-k.operand.value)
+        seq = axes[src(e.value)][0]
+        if isinstance(k, ast.Constant) and isinstance(k.value, int) and -len(seq) <= k.value < len(seq):
+            return seq[k.value], axes[src(e.value)][1]
+    return None
 
 
 def _alloc_call(v):
@@ -833,11 +1150,50 @@ def _alloc_call(v):
         "empty", "zeros", "ones", "full", "empty_like", "zeros_like", "ones_like", "full_like", "ndarray", "copy")
 
 
-def work_array_storage(chk, cls):
-    """the eight work arrays handed to the kernels are eight different pieces of storage"""
-    attrs = [a[len("self."):] for a in WORK_ROLES]
-    desc = {}            # attr -> list of storage descriptors
-    allocs = {}          # `self.X` / local -> allocation call node (for the bases of views)
+def _alloc_seq(v):
+    """a sequence whose elements are separate allocations: `[alloc(...) for ...]`, `[alloc(...), alloc(...)]` -> "each";
+    one allocation repeated, `[alloc(...)] * n` -> "repeat"; None otherwise"""
+    if isinstance(v, ast.ListComp) and _alloc_call(v.elt):
+        return "each"
+    if isinstance(v, (ast.List, ast.Tuple)) and v.elts and all(_alloc_call(x) for x in v.elts):
+        return "each"
+    if isinstance(v, ast.BinOp) and isinstance(v.op, ast.Mult):
+        for a_ in (v.left, v.right):
+            if isinstance(a_, (ast.List, ast.Tuple)) and a_.elts and all(_alloc_call(x) for x in a_.elts):
+                return "repeat"
+    return None
+
+
+def _const_index(sl):
+    sl = sl.elts[0] if isinstance(sl, ast.Tuple) and sl.elts else sl
+    if isinstance(sl, ast.UnaryOp) and isinstance(sl.op, ast.USub) and isinstance(sl.operand, ast.Constant) \
+            and isinstance(sl.operand.value, int):
+        return -sl.operand.value
+    return sl.value if isinstance(sl, ast.Constant) and isinstance(sl.value, int) and not isinstance(sl.value, bool) else None
+
+
+def work_array_storage(chk, cls, actuals):
+    """the expressions handed to the kernels as work arrays denote pairwise different pieces of storage.
+    `actuals`: {source text of the actual: (node, [work parameters it is bound to])}, taken from the kernel calls: the rule
+    follows whatever data structure the class keeps its scratch arrays in (attributes, views of a block, entries of a
+    list)."""
+    exprs = list(actuals)
+    desc = {}            # expr -> list of (storage descriptor, node)
+    allocs = {}          # `self.X` / local -> allocation nodes (for the bases of views)
+    seqs = {}            # `self.X` -> "each" / "repeat"
+    init = next((st for st in cls.body if isinstance(st, ast.FunctionDef) and st.name == "__init__"), cls)
+
+    def describe(v, where_):
+        if _alloc_call(v):
+            return ("fresh", id(v), where_)
+        if isinstance(v, ast.Subscript):
+            k_ = _const_index(v.slice)
+            base = f"alloc@{id(v.value)}" if _alloc_call(v.value) else src(v.value)
+            return ("view", base, k_, where_) if k_ is not None else ("unknown", src(v), where_)
+        if isinstance(v, ast.Attribute) and src(v.value) == "self":
+            return ("alias", src(v), where_)
+        return ("unknown", src(v), where_)
+
     for m in [st for st in cls.body if isinstance(st, ast.FunctionDef)]:
         for st in ast.walk(m):
             if not isinstance(st, ast.Assign):
@@ -856,100 +1212,335 @@ def work_array_storage(chk, cls):
                 ts = src(t)
                 if _alloc_call(v):
                     allocs.setdefault(ts, []).append(v)
-                if not (ts.startswith("self.") and ts[5:] in attrs):
-                    continue
-                a = ts[5:]
-                if _alloc_call(v):
-                    d = ("fresh", id(v), m.name)
-                elif isinstance(v, ast.Subscript):
-                    sl = v.slice.elts[0] if isinstance(v.slice, ast.Tuple) and v.slice.elts else v.slice
-                    k_ = sl.value if isinstance(sl, ast.Constant) and isinstance(sl.value, int) else None
-                    base = f"alloc@{id(v.value)}" if _alloc_call(v.value) else src(v.value)
-                    d = ("view", base, k_, m.name) if k_ is not None else ("unknown", src(v), m.name)
-                elif src(v).startswith("self.") and src(v)[5:] in attrs:
-                    d = ("alias", src(v)[5:], m.name)
-                else:
-                    d = ("unknown", src(v), m.name)
-                desc.setdefault(a, []).append((d, st))
+                elif _alloc_seq(v):
+                    allocs.setdefault(ts, []).append(v)
+                    seqs[ts] = _alloc_seq(v)
+                elif isinstance(t, (ast.Attribute, ast.Name)):
+                    allocs.setdefault(ts, []).append(None)          # bound to something that is not an allocation
+                if ts in exprs:
+                    desc.setdefault(ts, []).append((describe(v, m.name), st))
+    for e in exprs:
+        if e in desc:
+            continue
+        node = actuals[e][0]
+        if isinstance(node, ast.Subscript) or _alloc_call(node):
+            desc[e] = [(describe(node, "step"), node)]     # `self._work[3]`, or an array allocated for the call
 
     def base_fresh(key):
-        return key.startswith("alloc@") or len(allocs.get(key, [])) == 1
+        return key.startswith("alloc@") or (len(allocs.get(key, [])) == 1 and allocs[key][0] is not None)
+
+    def resolve(x, depth=0):
+        """follow `self.A = self.B` to the descriptors of B"""
+        if x[0] == "alias" and x[1] in desc and depth < 4:
+            return [y for (d_, _n) in desc[x[1]] for y in resolve(d_, depth + 1)]
+        return [x]
 
     def relation(a, b):
-        """'distinct' / 'same' / None for two attributes"""
+        """'distinct' / 'same' / None for two expressions"""
         da, db = desc.get(a), desc.get(b)
         if not da or not db:
             return None
         res = "distinct"
-        for (x, sx) in da:
-            for (y, sy) in db:
-                if x[0] == "alias" and x[1] == b or y[0] == "alias" and y[1] == a:
+        for (x0, sx) in da:
+            for (y0, sy) in db:
+                if x0[0] == "alias" and x0[1] == b or y0[0] == "alias" and y0[1] == a:
                     return "same"
-                if x[0] == "fresh" and y[0] == "fresh":
-                    if x[1] == y[1]:
-                        return "same"          # one allocation bound to both names (chained assignment)
-                    continue
-                if x[0] == "view" and y[0] == "view":
-                    if x[1] == y[1]:
-                        if x[2] == y[2]:
-                            return "same"
-                        if x[2] >= 0 and y[2] >= 0:
+                for x in resolve(x0):
+                    for y in resolve(y0):
+                        if x[0] == "fresh" and y[0] == "fresh":
+                            if x[1] == y[1]:
+                                return "same"          # one allocation bound to both names (chained assignment)
+                            continue
+                        if x[0] == "view" and y[0] == "view":
+                            if x[1] == y[1]:
+                                if seqs.get(x[1]) == "repeat" and base_fresh(x[1]):
+                                    return "same"      # every entry of `[a] * n` is the one array a
+                                if x[2] == y[2]:
+                                    return "same"
+                                if x[2] >= 0 and y[2] >= 0 and base_fresh(x[1]):
+                                    continue
+                                res = None
+                                continue
+                            if base_fresh(x[1]) and base_fresh(y[1]):
+                                continue
+                            res = None
+                            continue
+                        if {x[0], y[0]} == {"fresh", "view"}:
+                            base = x[1] if x[0] == "view" else y[1]
+                            if base_fresh(base):
+                                continue
+                            res = None
                             continue
                         res = None
-                        continue
-                    if base_fresh(x[1]) and base_fresh(y[1]):
-                        continue
-                    res = None
-                    continue
-                if {x[0], y[0]} == {"fresh", "view"}:
-                    base = x[1] if x[0] == "view" else y[1]
-                    if base_fresh(base):
-                        continue
-                    res = None
-                    continue
-                res = None
         return res
 
     def why_same(a, b):
-        pa, pb = a.replace("_k1_", "_k?_").replace("_k2_", "_k?_"), b.replace("_k1_", "_k?_").replace("_k2_", "_k?_")
-        if a != b and pa == pb and "endPts" in a:
-            return (f"self.{a} and self.{b} are the same storage: the implicit kernel measures convergence as "
+        fa, fb = actuals[a][1], actuals[b][1]
+        strip = lambda x: x.replace("_k1_", "_k?_").replace("_k2_", "_k?_")      # noqa: E731
+        stages = lambda fs: {x[:9] for x in fs if x.startswith("endPts_k")}      # noqa: E731
+        if len(actuals[a]) > 2 and all(k_.endswith("_expl") for k_ in actuals[a][2] + actuals[b][2]) \
+                and stages(fa) | stages(fb) == {"endPts_k1", "endPts_k2"} and len(stages(fa)) == len(stages(fb)) == 1 \
+                and all(x.startswith("endPts") for x in fa + fb):
+            return None          # only the explicit kernel receives them: it may not need both end points at once
+        if any("endPts" in x and x != y and strip(x) == strip(y) for x in fa for y in fb):
+            return (f"{a} and {b} are the same storage: the implicit kernel measures convergence as "
                     "|endPts_k2 - endPts_k1| (new iterate minus old iterate); with shared storage that is always 0, the "
                     "while loop stops after its first pass and the foot is one unconverged iterate instead of the solution "
                     "of the implicit trapezoidal rule")
-        return (f"self.{a} and self.{b} are the same storage: the kernels keep different quantities in them during one "
+        return (f"{a} and {b} are the same storage: the kernels keep different quantities in them during one "
                 "sweep (drift at the node / at the second point, first- and second-stage end points), one overwrites the other")
 
-    init = next((st for st in cls.body if isinstance(st, ast.FunctionDef) and st.name == "__init__"), cls)
-    for a in attrs:
+    for a in exprs:
         node = desc[a][0][1] if a in desc else init
-        rel = {b: relation(a, b) for b in attrs if b != a}
+        at = dict(file=U.ADV, func="PoloidalAdvection.__init__" if a in desc and desc[a][0][0][-1] != "step"
+                  else "PoloidalAdvection.step")
+        rel = {b: relation(a, b) for b in exprs if b != a}
         same = [b for b, r in rel.items() if r == "same"]
-        what = f"self.{a}: storage of its own"
+        what = f"{a}: storage of its own"
         if same:
-            chk.ob("E2-work-array-storage", node, what, False, why_same(a, same[0]), file=U.ADV, func="PoloidalAdvection.__init__")
+            why = why_same(a, same[0])
+            chk.ob("E2-work-array-storage", node, what, False if why else None, why or
+                   f"{a} and {same[0]} are the same storage and only the explicit kernel receives them, as first- and second-stage "
+                   "end points: whether it needs both at once is not decided by this rule", **at)
         elif all(r == "distinct" for r in rel.values()):
             chk.ob("E2-work-array-storage", node, what, True,
-                   "allocated separately from (or as a different slice than) the other seven work arrays",
-                   file=U.ADV, func="PoloidalAdvection.__init__")
+                   "allocated separately from (or as a different slice / entry than) the other work arrays", **at)
         else:
             und = [b for b, r in rel.items() if r is None]
             chk.ob("E2-work-array-storage", node, what, None,
-                   f"whether self.{a} shares storage with {['self.' + b for b in und][:3]} is not decided (allocation not recognised)",
-                   file=U.ADV, func="PoloidalAdvection.__init__")
+                   f"whether {a} shares storage with {und[:3]} is not decided (allocation not recognised)", **at)
+
+
+# ---------------------------------------------------------------------------------------------------------
+# the potential splines kept between calls: the methods that read them and the methods that fill them agree
+# ---------------------------------------------------------------------------------------------------------
+
+def _state_root(e):
+    """`self.X[...]...` / `self.X.a.b` -> ("self.X", [subscript nodes]) ; None when `e` is not storage of the object"""
+    idx = []
+    while isinstance(e, (ast.Subscript, ast.Attribute)):
+        if isinstance(e, ast.Attribute) and isinstance(e.value, ast.Name) and e.value.id == "self":
+            return "self." + e.attr, idx[::-1]
+        if isinstance(e, ast.Subscript):
+            idx.append(e.slice)
+        e = e.value
+    return None
+
+
+def _method_locals(m):
+    """names of a method that stand for one expression: bound once (anywhere) to a pure path, or bound once as the
+    target of a loop over (a zip / enumerate / reversed of) storage of the object, in which case they stand for an
+    entry of that storage.  name -> ("expr", node) | ("entry", "self.X")"""
+    stores = {}
+    for n in ast.walk(m):
+        if isinstance(n, ast.Name) and isinstance(n.ctx, ast.Store):
+            stores[n.id] = stores.get(n.id, 0) + 1
+    out = {}
+    for st in ast.walk(m):
+        if isinstance(st, ast.Assign) and len(st.targets) == 1 and isinstance(st.targets[0], ast.Name) \
+                and stores.get(st.targets[0].id) == 1 and _pure_path(st.value):
+            out[st.targets[0].id] = ("expr", st.value)
+        elif isinstance(st, ast.For):
+            it = st.iter
+            wrapped = isinstance(it, ast.Call) and isinstance(it.func, ast.Name) and it.func.id in ("zip", "enumerate", "reversed")
+            srcs = list(it.args) if wrapped else [it]
+            tgts = [st.target]
+            if wrapped and it.func.id == "enumerate" and isinstance(st.target, ast.Tuple) and len(st.target.elts) == 2:
+                tgts = [st.target.elts[1]]
+            elif wrapped and it.func.id == "zip" and isinstance(st.target, ast.Tuple) and len(st.target.elts) == len(srcs):
+                tgts = list(st.target.elts)
+            elif wrapped and it.func.id == "zip":
+                continue
+            for t, e in zip(tgts, srcs if len(tgts) == len(srcs) else srcs[:1]):
+                r = _state_root(e) if not isinstance(e, ast.Attribute) or not (isinstance(e.value, ast.Name) and e.value.id == "self") \
+                    else ("self." + e.attr, [])
+                if isinstance(t, ast.Name) and stores.get(t.id) == 1 and r is not None:
+                    out[t.id] = ("entry", r[0])
+    return out
+
+
+def _storage_of(e, loc, depth=0):
+    """storage of the object an expression of a method denotes: ("self.X", subscripts | None) ; None when it is not
+    storage of the object (a parameter, a fresh object, ...)"""
+    if isinstance(e, ast.Name) and e.id in loc and depth < 5:
+        kind, v = loc[e.id]
+        if kind == "entry":
+            return v, None
+        return _storage_of(v, loc, depth + 1)
+    if isinstance(e, ast.Subscript) and isinstance(e.value, ast.Name) and e.value.id in loc and depth < 5:
+        kind, v = loc[e.value.id]
+        if kind == "expr":
+            r = _storage_of(v, loc, depth + 1)
+            if r is not None:
+                return r[0], (list(r[1]) + [e.slice]) if r[1] is not None else None
+        return None
+    return _state_root(e)
+
+
+def _index_binding(m, at, idx):
+    """how the subscripts of a cache access are bound: for each subscript that is a loop variable, the text of the loop
+    header it comes from with the position of the variable in the target; the text of the subscript otherwise"""
+    out = []
+    for x in idx or []:
+        if isinstance(x, ast.Name):
+            p_ = parent(at)
+            found = None
+            while p_ is not None and p_ is not m:
+                if isinstance(p_, ast.For):
+                    names = [n.id for n in ast.walk(p_.target) if isinstance(n, ast.Name)]
+                    if x.id in names:
+                        found = f"{src(p_.iter)}#{names.index(x.id)}"
+                        break
+                p_ = parent(p_)
+            out.append(found or f"name {x.id}")
+        else:
+            out.append(src(x))
+    return tuple(out)
+
+
+def _new_splines(v):
+    """the value is a new spline object or a sequence of new spline objects"""
+    def ctor(x):
+        return isinstance(x, ast.Call) and src(x.func).split(".")[-1] in ("Spline2D", "Spline1D")
+    if ctor(v):
+        return True
+    if isinstance(v, ast.ListComp):
+        return ctor(v.elt)
+    if isinstance(v, (ast.List, ast.Tuple)):
+        return bool(v.elts) and all(ctor(x) for x in v.elts)
+    if isinstance(v, ast.BinOp) and isinstance(v.op, ast.Mult):
+        return any(isinstance(a_, (ast.List, ast.Tuple)) and a_.elts and all(ctor(x) for x in a_.elts) for a_ in (v.left, v.right))
+    return False
+
+
+def potential_cache_agreement(chk, cls):
+    """`gridStep_SplinesUnchanged` advects with 'the potential of the last gridStep': every method that hands storage
+    of the object to step() as the potential WITHOUT computing it itself reads what another method left there.  Readers
+    and writers are extracted from the methods as they are written (whatever the storage is called and however it is
+    indexed) and compared with each other: the storage read must be storage that a method fills with an interpolated
+    potential, entry for entry."""
+    methods = [st for st in cls.body if isinstance(st, ast.FunctionDef)]
+    step = next((m for m in methods if m.name == "step"), None)
+    if step is None:
+        return
+    sformals = [a.arg for a in step.args.args][1:]
+    if "phi" not in sformals:
+        chk.ob("E3-potential-cache-agreement", step, "step(f, dt, phi, v)", None,
+               "step() has no parameter `phi` any more: which argument is the potential is not decided",
+               file=U.ADV, func="PoloidalAdvection.step")
+        return
+    reads, writes, hand_off = [], [], []          # (method, root, idx, node)
+    for m in methods:
+        if m.name == "step":
+            continue
+        loc = _method_locals(m)
+        for c in [n for n in ast.walk(m) if isinstance(n, ast.Call)]:
+            fsrc = src(c.func)
+            if fsrc == "self.step":
+                b = agree.bind_call(c, sformals)
+                if b is None or "phi" not in b:
+                    if any(isinstance(a, ast.Starred) for a in c.args) or any(k.arg is None for k in c.keywords):
+                        hand_off.append((m, None, None, c))
+                    continue
+                r = _storage_of(b["phi"], loc)
+                if r is not None:
+                    reads.append((m, r[0], r[1], c))
+                continue
+            if isinstance(c.func, ast.Attribute) and c.func.attr == "compute_interpolant":
+                b = agree.bind_call(c, ["data", "spline"])
+                dest = b.get("spline") if b else None
+                r = _storage_of(dest, loc) if dest is not None else None
+                if r is not None:
+                    writes.append((m, r[0], r[1], c))
+                continue
+            # storage of the object handed to anything else may be filled there
+            for a in list(c.args) + [k.value for k in c.keywords]:
+                a = a.value if isinstance(a, ast.Starred) else a
+                r = _storage_of(a, loc) if isinstance(a, (ast.Name, ast.Subscript, ast.Attribute)) else None
+                if r is not None:
+                    hand_off.append((m, r[0], r[1], c))
+        if m.name != "__init__":
+            for n in ast.walk(m):
+                if isinstance(n, (ast.Subscript, ast.Attribute)) and isinstance(n.ctx, ast.Store):
+                    r = _storage_of(n, loc)
+                    if r is not None:
+                        hand_off.append((m, r[0], r[1], n))
+    seen = set()
+    for m, root, idx, c in reads:
+        if any(w[0] is m and w[1] == root for w in writes):
+            continue                       # the method computes the potential it uses: nothing is carried between calls
+        if (m.name, root) in seen:
+            continue
+        seen.add((m.name, root))
+        what = f"{m.name}: potential read from {root}{'[...]' if idx or idx is None else ''} is the one a gridStep left there"
+        where = dict(file=U.ADV, func=f"PoloidalAdvection.{m.name}")
+        ws = [w for w in writes if w[1] == root]
+        if ws:
+            rb = _index_binding(m, c, idx) if idx is not None else None
+            agree_w = [w for w in ws if w[2] is not None and rb is not None and _index_binding(w[0], w[3], w[2]) == rb]
+            if agree_w:
+                w = agree_w[0]
+                chk.ob("E3-potential-cache-agreement", c, what, True,
+                       f"{w[0].name} interpolates the potential into `{src(agree_w[0][3].args[-1]) if agree_w[0][3].args else root}` "
+                       f"over {list(rb)} and {m.name} reads the same entries", **where)
+            elif rb is not None and rb and all("#" in x for x in rb) and any(
+                    w[2] is not None and len(w[2]) == len(rb) and all("#" in x for x in _index_binding(w[0], w[3], w[2])) for w in ws):
+                w = next(w for w in ws if w[2] is not None and len(w[2]) == len(rb))
+                chk.ob("E3-potential-cache-agreement", c, what, True,
+                       f"{w[0].name} interpolates the potential into {root}[...] in a loop over {list(_index_binding(w[0], w[3], w[2]))} "
+                       f"and {m.name} reads {root}[...] in a loop over {list(rb)}: both are filled / read entry by entry (that the "
+                       "two loop variables index the same space is the subject of rule C-cache-index-space)", **where)
+            else:
+                w = ws[0]
+                chk.ob("E3-potential-cache-agreement", c, what, None,
+                       f"{w[0].name} fills {root} over {list(_index_binding(w[0], w[3], w[2])) if w[2] is not None else '?'} and "
+                       f"{m.name} reads it over {list(rb) if rb is not None else '?'}: that every entry read has been filled is "
+                       "not decided", **where)
+            continue
+        maybe = sorted({h[0].name for h in hand_off if h[1] == root or h[1] is None})
+        if maybe:
+            chk.ob("E3-potential-cache-agreement", c, what, None,
+                   f"no method interpolates a potential into {root} directly; it is modified or handed on in {maybe}: whether it "
+                   "holds the potential of the last gridStep is not decided", **where)
+            continue
+        created = [st for mm in methods if mm.name == "__init__" for st in ast.walk(mm) if isinstance(st, ast.Assign)
+                   and any(src(t) == root for t in st.targets)]
+        empty = len(created) == 1 and _new_splines(created[0].value)
+        if not empty:
+            chk.ob("E3-potential-cache-agreement", c, what, None,
+                   f"no method interpolates a potential into {root}, and the constructor does not create it as new (empty) "
+                   "spline objects: what it holds is not decided", **where)
+            continue
+        others = sorted({f"{w[1]} (in {w[0].name})" for w in writes if w[0].name != "__init__"
+                         and any(r_[0] is w[0] and r_[1] == w[1] for r_ in reads)})
+        chk.ob("E3-potential-cache-agreement", c, what, False,
+               f"{m.name} hands `{src(agree.bind_call(c, sformals)['phi'])}` to step() as the potential without computing it, and "
+               f"no method of the class ever interpolates a potential into {root}"
+               + (f" (the potential given to gridStep is interpolated into {', '.join(others)} instead, which {m.name} does not read)"
+                  if others else "")
+               + f": {root} keeps the coefficients of the new spline objects of `{src(created[0])[:80]}`, so after "
+               f"gridStep(grid, phi, dt) a call of {m.name} does not trace the characteristics of that phi (coefficients still "
+               "zero: no drift at all, f is left unchanged)", **where)
 
 
 def call_site_roles(chk):
-    """E-roles at the two kernel calls of PoloidalAdvection.step, and the (theta, r) ordering"""
+    """E-roles at the two kernel calls of PoloidalAdvection.step.  The roles of the attributes handed to the kernels are
+    read off the class itself (which grid axis, which constructor argument, which spline the distribution was
+    interpolated into, which scratch storage) and compared with the parameters they are bound to."""
+    import copy
     mod = chk.mod(U.ADV)
     kmod = chk.mod(U.ADVK)
+    cls = mod.cls("PoloidalAdvection")
     fn = chk.func(U.ADV, "PoloidalAdvection.step")
     init = chk.func(U.ADV, "PoloidalAdvection.__init__")
     where = dict(file=U.ADV, func="PoloidalAdvection.step")
-    point_order(chk, init)
-    work_array_storage(chk, mod.cls("PoloidalAdvection"))
+    potential_cache_agreement(chk, cls)
     aliases = local_aliases(fn)
-    kernel_calls = []
+    kwtables = local_kwtables(fn)
+    axes = grid_axes(init)
+    prov = ctor_provenance(cls)
+    const_recv = next((a_ for a_, p_ in prov.items() if p_ == "constants"), "self._constants")
+    kernel_calls, bound = [], []
     for kname in ("poloidal_advection_step_expl", "poloidal_advection_step_impl"):
         calls = [c for c in ast.walk(fn) if isinstance(c, ast.Call) and isinstance(c.func, ast.Name) and c.func.id == kname]
         if len(calls) != 1:
@@ -960,10 +1551,11 @@ def call_site_roles(chk):
         c0 = calls[0]
         kernel_calls.append(c0)
         formals = [a.arg for a in kmod.func(kname).args.args]
-        c = resolved_call(c0, aliases)
+        c = resolved_call(c0, aliases, kwtables)
         if any(isinstance(a, ast.Starred) for a in c.args) or any(k.arg is None for k in c.keywords):
             chk.ob("E2-arity", c0, f"{kname}(...)", None,
-                   "the argument list unpacks a sequence that is not a local tuple of step(): binding not decided", **where)
+                   "the argument list unpacks a sequence / keyword table that is not a local tuple / an unmodified local "
+                   "`dict(...)` of step(): binding not decided", **where)
             continue
         b = agree.bind_call(c, formals)
         if b is None:
@@ -975,33 +1567,86 @@ def call_site_roles(chk):
         chk.ob("E2-arity", c0, f"{kname}(...)", not missing,
                "every parameter of the kernel receives exactly one argument" if not missing else
                f"parameters {missing} receive no argument: the call raises TypeError", **where)
+        bound.append((kname, c0, c, formals, b))
+    # ---- scratch storage: the expressions bound to the work parameters, whatever they are
+    work_actuals = {}
+    for kname, c0, c, formals, b in bound:
+        for f in WORK:
+            if f in b:
+                work_actuals.setdefault(src(b[f]), (b[f], [], []))[1].append(f)
+                work_actuals[src(b[f])][2].append(kname)
+    # the spline object whose parts the call sites read as the spline of the distribution
+    recvs = []
+    for kname, c0, c, formals, b in bound:
+        for f, part in (("coeffsPol", ".coeffs"), ("kts1Pol", ".basis[0].knots"), ("kts2Pol", ".basis[1].knots"),
+                        ("deg1Pol", ".basis[0].degree"), ("deg2Pol", ".basis[1].degree")):
+            if f in b and src(b[f]).endswith(part) and not src(b[f]).startswith("phi."):
+                recvs.append(src(b[f])[:-len(part)])
+    pol_recv = max(set(recvs), key=recvs.count) if recvs else "self._spline"
+    table = dict(STEP_ROLES)
+    table.update(pol_roles(pol_recv))
+    for a_, p_ in prov.items():
+        if p_ in CTOR_PARAM_ROLES:
+            table[a_] = CTOR_PARAM_ROLES[p_]
+    # an expression that has a known role elsewhere is not scratch storage even when it is bound to a work parameter
+    work_actuals = {e: v for e, v in work_actuals.items() if e not in table and not e.startswith(const_recv + ".")
+                    and axis_of(v[0], axes) is None}
+    if work_actuals:
+        work_array_storage(chk, cls, work_actuals)
+    for kname, c0, c, formals, b in bound:
+        # ---- grid axes: the actuals of rPts / qPts are the r / theta points
+        got_axes = {f: axis_of(b[f], axes) for f in ("rPts", "qPts") if f in b}
+        what = f"{kname}: rPts <- r points, qPts <- theta points"
+        if len(got_axes) == 2 and all(v is not None for v in got_axes.values()):
+            ar, aq = got_axes["rPts"][0], got_axes["qPts"][0]
+            defs = sorted({f"`{src(v[1])}`" for v in got_axes.values()})
+            if (ar, aq) == ("r", "theta"):
+                chk.ob("E2-point-order", c0, what, True,
+                       f"{' and '.join(defs)}: `{src(b['rPts'])}` is the r axis and `{src(b['qPts'])}` the theta axis", **where)
+            else:
+                chk.ob("E2-point-order", c0, what, False,
+                       f"the constructor has {' and '.join(defs)}, so `{src(b['rPts'])}` is the {ar} axis and `{src(b['qPts'])}` "
+                       f"the {aq} axis of eta_vals = (r, theta, z, v), while step() binds them to rPts and qPts: the two grid "
+                       "axes are exchanged (or wrong) in the whole advection", **where)
+        else:
+            und = [f"{f} <- {src(b[f])}" for f, v in got_axes.items() if v is None] + [f for f in ("rPts", "qPts") if f not in b]
+            chk.ob("E2-point-order", c0, what, None,
+                   f"which grid axis {und} denotes is not determined from the constructor: not decided", **where)
+        known = set(table) | {src(b[f]) for f in got_axes if got_axes[f] is not None}
         for f, a in b.items():
             s_ = src(a)
-            if not (s_.startswith("self._constants.") or s_ in ROLES):
+            if f in ("rPts", "qPts") and got_axes.get(f) is not None:
+                continue
+            if axis_of(a, axes) is not None:
+                chk.ob("E2-argument-role", c0, f"{kname}: {f} <- {s_}", False,
+                       f"`{s_}` is the {axis_of(a, axes)[0]} axis of the grid and is bound to parameter `{f}`", **where)
+                continue
+            if not (s_.startswith(const_recv + ".") or s_ in table or s_ in work_actuals):
                 chk.ob("E2-argument-role", c0, f"{kname}: {f} <- {s_}", None,
                        f"the role of the actual `{s_}` is not known: whether it is the right argument for `{f}` is not decided",
                        **where)
-        agree.check_roles(chk, U.ADV, "PoloidalAdvection.step", c, formals, ROLES, const_recv="self._constants")
+        work_roles_at_call(chk, c0, kname, b, set(work_actuals), known | {s_ for s_ in map(src, b.values())
+                                                                       if s_.startswith(const_recv + ".")}, where)
+        agree.check_roles(chk, U.ADV, "PoloidalAdvection.step", c, formals, table, const_recv=const_recv)
         # potential bases from the potential spline, distribution bases from the interpolated distribution
         phi_f = [f for f in b if f.endswith("Phi")]
         pol_f = [f for f in b if f.endswith("Pol")]
-        crossed = [f"{f} <- {src(b[f])}" for f in phi_f if src(b[f]).startswith("self._spline")] + \
+        crossed = [f"{f} <- {src(b[f])}" for f in phi_f if src(b[f]).startswith(pol_recv + ".")] + \
                   [f"{f} <- {src(b[f])}" for f in pol_f if src(b[f]).startswith("phi.")]
         okb = len(phi_f) == 5 and len(pol_f) == 5 and all(src(b[f]).startswith("phi.") for f in phi_f) and \
-            all(src(b[f]).startswith("self._spline.") for f in pol_f)
-        chk.pat("E2-basis-sources", c0, f"{kname}: phi* <- phi, pol* <- self._spline", okb,
+            all(src(b[f]).startswith(pol_recv + ".") for f in pol_f) and pol_recv != "phi"
+        chk.pat("E2-basis-sources", c0, f"{kname}: phi* <- phi, pol* <- {pol_recv}", okb,
                 "potential knots/degrees/coefficients come from the potential spline, those of the distribution from the "
                 "spline interpolated from f",
                 ("the spline of the potential and the spline of the distribution are exchanged or mixed (" + "; ".join(crossed) +
                  "): the drift is computed from the wrong function / the wrong function is evaluated at the foot") if crossed else None,
                 **where)
-    # the distribution is interpolated before the kernel is called
+    # the distribution is interpolated, before the kernel is called, into the spline the kernel evaluates
     interp = [c for c in ast.walk(fn) if isinstance(c, ast.Call) and isinstance(c.func, ast.Attribute) and
               c.func.attr == "compute_interpolant"]
-    what = "self._interpolator.compute_interpolant(f, self._spline) before the kernel call"
+    what = f"self._interpolator.compute_interpolant(f, {pol_recv}) before the kernel call"
     first_kernel = min((c.lineno for c in kernel_calls), default=None)
     sub = _Subst(aliases)
-    import copy
     if first_kernel is None:
         chk.ob("E2-interpolate-before-evaluate", fn, what, None, "no kernel call found: not decided", **where)
     elif not interp:
@@ -1009,24 +1654,28 @@ def call_site_roles(chk):
                "step() does not interpolate f any more: the kernel evaluates the spline coefficients left over from the "
                "previous call (another slice of the distribution) at the feet", **where)
     else:
-        good = und = late = wrong_dest = 0
+        good = und = late = 0
+        wrong_dest = []
         for c in interp:
-            a_ = [src(sub.visit(copy.deepcopy(x))) for x in c.args] + [f"{k.arg}={src(k.value)}" for k in c.keywords]
+            bi = agree.bind_call(c, ["data", "spline"])
+            a_ = [src(sub.visit(copy.deepcopy(bi[k_]))) for k_ in ("data", "spline")] if bi and len(bi) == 2 else []
             unconditional = not [g for g in guards_of(c, stop=fn)]
-            if len(a_) == 2 and a_[0] == "f" and a_[1] == "self._spline":
+            if len(a_) == 2 and a_[0] == "f" and a_[1] == pol_recv and recvs:
                 if c.lineno < first_kernel and unconditional:
                     good += 1
                 elif c.lineno >= first_kernel and unconditional:
                     late += 1
                 else:
                     und += 1
-            elif len(a_) == 2 and a_[0] == "f" and (a_[1].startswith("self.") or a_[1] in {p.arg for p in fn.args.args}):
-                wrong_dest += 1
+            elif len(a_) == 2 and a_[0] == "f" and recvs and \
+                    (a_[1].startswith("self.") or a_[1] in {p.arg for p in fn.args.args}):
+                wrong_dest.append(a_[1])
             else:
                 und += 1
         if good:
             chk.ob("E2-interpolate-before-evaluate", interp[0], what, True,
-                   "the spline of f is computed from the current nodal values before the feet are evaluated", **where)
+                   "the spline of f is computed from the current nodal values before the feet are evaluated, into the spline "
+                   "whose knots, degrees and coefficients the kernel receives", **where)
         elif und:
             chk.ob("E2-interpolate-before-evaluate", interp[0], what, None,
                    "an interpolation is present but its arguments / position are not the recognised ones: not decided", **where)
@@ -1036,8 +1685,8 @@ def call_site_roles(chk):
                    "previous call's spline", **where)
         else:
             chk.ob("E2-interpolate-before-evaluate", interp[0], what, False,
-                   "the interpolant of f is written into another spline than self._spline, whose coefficients the kernel "
-                   "evaluates at the feet", **where)
+                   f"the interpolant of f is written into `{wrong_dest[0]}` while the kernel is handed the coefficients of "
+                   f"`{pol_recv}`: the feet take the values of a spline that does not represent the current f", **where)
 
 
 def iteration_bound(chk, mod):
@@ -1046,21 +1695,19 @@ def iteration_bound(chk, mod):
     does not terminate for inputs where it is not - a structural necessary condition of unconditional termination."""
     fn = mod.func(IMPL)
     loops = [n for n in ast.walk(fn) if isinstance(n, ast.While)]
+    if not loops:
+        found = iteration_loop(fn)
+        if isinstance(found, tuple) and found[3]:
+            chk.ob("F1-iteration-bounded", found[0], "while norm > tol: fixed-point pass", True,
+                   f"the fixed-point passes are the iterations of `for {src(found[0].target)} in {src(found[0].iter)}`, left early at "
+                   "convergence: their number is bounded", file=U.ADVK, func=IMPL)
+            return
     if len(loops) != 1:
         chk.ob("F1-iteration-bounded", fn, "while norm > tol", None, f"{len(loops)} while loops found in the implicit kernel", file=U.ADVK, func=IMPL)
         return
     lp = loops[0]
     names_in_test = {n.id for n in ast.walk(lp.test) if isinstance(n, ast.Name)}
-    counters = set()
-    for n in ast.walk(lp):
-        inc = None
-        if isinstance(n, ast.AugAssign) and isinstance(n.target, ast.Name) and isinstance(n.op, ast.Add) and isinstance(n.value, ast.Constant):
-            inc = n.target.id
-        if isinstance(n, ast.Assign) and isinstance(n.targets[0], ast.Name) and isinstance(n.value, ast.BinOp) and isinstance(n.value.op, ast.Add) \
-                and isinstance(n.value.left, ast.Name) and n.value.left.id == n.targets[0].id and isinstance(n.value.right, ast.Constant):
-            inc = n.targets[0].id
-        if inc and not any(isinstance(p_, ast.For) for p_ in _ancestors(n, lp)):
-            counters.add(inc)
+    counters = _pass_counters(lp)
     bounded = bool(counters & names_in_test) or any(
         isinstance(n, ast.If) and any(isinstance(b, (ast.Break, ast.Return, ast.Raise)) for b in ast.walk(n))
         and ({x.id for x in ast.walk(n.test) if isinstance(x, ast.Name)} & counters) for n in ast.walk(lp))
@@ -1070,11 +1717,23 @@ def iteration_bound(chk, mod):
            "time step for which the fixed-point map is not a contraction the call never returns", file=U.ADVK, func=IMPL)
 
 
-def _ancestors(n, stop):
-    p_ = parent(n)
-    while p_ is not None and p_ is not stop:
-        yield p_
-        p_ = parent(p_)
+def _pass_counters(lp):
+    """names incremented by a constant once per pass of the loop (not inside a sweep over the nodes)"""
+    counters = set()
+
+    def rec(stmts):
+        for n in stmts:
+            if isinstance(n, ast.AugAssign) and isinstance(n.target, ast.Name) and isinstance(n.op, ast.Add) \
+                    and isinstance(n.value, ast.Constant):
+                counters.add(n.target.id)
+            elif isinstance(n, ast.Assign) and isinstance(n.targets[0], ast.Name) and isinstance(n.value, ast.BinOp) \
+                    and isinstance(n.value.op, ast.Add) and isinstance(n.value.left, ast.Name) \
+                    and n.value.left.id == n.targets[0].id and isinstance(n.value.right, ast.Constant):
+                counters.add(n.targets[0].id)
+            elif isinstance(n, ast.If):
+                pass                        # a conditional increment does not count the passes
+    rec(lp.body)
+    return counters
 
 
 def run(chk):
@@ -1084,10 +1743,18 @@ def run(chk):
         "and loop test, and fill of the implicit kernel, each compared as rational functions / conditionals with the "
         "specification written from the property statement (drift (-d_r phi, d_theta phi)/(r B0), trapezoidal rule, "
         "theta mod 2 pi, fill values); conditionals are compared by case analysis from the innermost condition outwards, "
-        "a mismatch is matched against named wrong variants to diagnose it. Every sweep visits all nodes; the measure is "
-        "reset in each pass. Plus fast-path/general-path dispatch agreement, argument-role agreement at the kernel call "
-        "sites (local aliases and unpacked local tuples resolved), distinct storage of the eight work arrays, (theta, r) "
-        "order of the points, interpolation of f before the kernel call. Of 'the implicit iteration terminates' only the structural "
+        "a mismatch is matched against named wrong variants to diagnose it (among them: angle reduced by one conditional "
+        "shift of a period instead of modulo 2 pi). The fixed-point loop is brought to while form first (`while True` / "
+        "`for _ in range(N)` left by a break as first or last statement; a conjunct on a pass counter is a bound). Every "
+        "sweep visits all nodes; the measure is reset in each pass. Plus fast-path/general-path dispatch agreement and the "
+        "kernel call sites of PoloidalAdvection.step, decided RELATIONALLY from the class itself (local aliases, unpacked "
+        "local tuples and unmodified local keyword tables resolved): the actuals of rPts/qPts are the r/theta axis according "
+        "to the constructor's selection from eta_vals; the parts of the distribution spline all come from one spline object, "
+        "which is the one f is interpolated into before the call; attributes that keep a constructor argument have its role; "
+        "the expressions bound to the work parameters (attributes, views of a block, entries of a list) denote pairwise "
+        "different storage, which of them plays which part being immaterial; a method that hands stored potential splines to "
+        "step() without computing them reads storage that another method fills by interpolation, entry for entry. "
+        "Of 'the implicit iteration terminates' only the structural "
         "necessary condition is decided (an iteration bound; absent today: known finding); accuracy orders and rigid-rotation exactness "
         "are numerical consequences and are not decided.")
     chk.assumptions += ["the spline evaluators have the semantics stated by C07 (uninterpreted S2(x,y,der1,der2;family))",
